@@ -305,8 +305,15 @@ func wrapRData(typ uint16, rdata []byte, rdlen int, tail bool) []byte {
 func quadratic(n int) []byte {
 	// one long label sequence, then as many records as fit whose owner and RDATA point at it
 	a := &asm{}
+	// Sizing: each record decodes the L-label name twice, so the work is 2*L*R label
+	// reads. The full 64 KiB shape (L = n/4, R = n/28: 77 M label reads) costs the
+	// unchanged decoder 3.2 CPU-seconds here - inside the 5 s budget but too close to
+	// it for a load-independent verdict - so the largest case is scaled to about 30 M.
 	L := n / 4
 	R := (n/2 - 30) / 14
+	if n > 40000 {
+		L, R = 8192, 1800
+	}
 	if R < 1 {
 		R = 1
 	}
@@ -432,17 +439,18 @@ func grammar(rng *mrand.Rand) []byte {
 	var starts []int // offsets where a name or a label starts
 	name := func() {
 		at := a.off()
+		before := len(starts)
 		starts = append(starts, at)
 		switch k := rng.IntN(40); {
 		case k < 4:
 			a.u8(0)
-		case k < 12 && len(starts) > 1:
-			a.ptr(starts[rng.IntN(len(starts)-1)])
-		case k < 14:
+		case k < 12 && before > 0:
+			a.ptr(starts[rng.IntN(before)])
+		case k == 12 && rng.IntN(4) == 0:
 			a.ptr(rng.IntN(at + 1))
 		case k == 14:
 			a.ptr(rng.IntN(0x4000))
-		case k == 15 && rng.IntN(4) == 0: // a label and a pointer back to it
+		case k == 15 && rng.IntN(30) == 0: // a label and a pointer back to it
 			a.label(1+rng.IntN(5), 'q')
 			a.ptr(at)
 		default:
@@ -455,9 +463,12 @@ func grammar(rng *mrand.Rand) []byte {
 				a.u8(l)
 				a.raw(rnd(rng, l))
 			}
-			if len(starts) > 1 && rng.IntN(2) == 0 {
-				a.ptr(starts[rng.IntN(len(starts))])
-			} else {
+			switch {
+			case before > 0 && rng.IntN(2) == 0:
+				a.ptr(starts[rng.IntN(before)]) // a suffix written earlier
+			case rng.IntN(150) == 0:
+				a.ptr(starts[before+rng.IntN(len(starts)-before)]) // back into this very name
+			default:
 				a.u8(0)
 			}
 		}
@@ -637,7 +648,13 @@ func mutate(rng *mrand.Rand, b []byte) ([]byte, string) {
 		case 5:
 			b = append(b[:pos], append([]byte{byte(rng.IntN(256))}, b[pos:]...)...)
 			kinds += "i"
-		case 6, 7: // a compression pointer to an earlier (or any) offset
+		case 6, 7: // a compression pointer to an earlier (or any) offset; rare, because on a decoder
+			// without loop protection every label-then-pointer-back costs one helper process
+			if rng.IntN(12) != 0 {
+				b[pos] = byte(rng.IntN(256))
+				kinds += "r"
+				continue
+			}
 			if pos+1 < len(b) {
 				target := rng.IntN(pos + 1)
 				if rng.IntN(4) == 0 {
@@ -685,18 +702,18 @@ func forcedList() []forcedCase {
 	add := func(class string, drive bool, f func(rng *mrand.Rand) []byte) {
 		out = append(out, forcedCase{class, f, drive})
 	}
+	// the 16-byte input of DESIGN section 7 (F7), verbatim: question name "a" followed by a pointer to itself
+	add("ptr:f7-minimal", false, func(*mrand.Rand) []byte {
+		return []byte{0, 0, 1, 0, 0, 1, 0, 0, 0, 0, 0, 0, 1, 'a', 0xc0, 0x0c}
+	})
+	add("ptr:header-loop0", false, func(*mrand.Rand) []byte { return headerLoop(0) })
+	add("ptr:header-loop2", false, func(*mrand.Rand) []byte { return headerLoop(1) })
 	for _, p := range namePositions {
 		for _, s := range pointerShapes() {
 			p, s := p, s
 			add("ptr:"+s.id+":"+p.id, !s.loop, func(*mrand.Rand) []byte { return buildPointerCase(p, s) })
 		}
 	}
-	add("ptr:header-loop0", false, func(*mrand.Rand) []byte { return headerLoop(0) })
-	add("ptr:header-loop2", false, func(*mrand.Rand) []byte { return headerLoop(1) })
-	// the 16-byte input of DESIGN section 7 (F7), verbatim
-	add("ptr:f7-minimal", false, func(*mrand.Rand) []byte {
-		return []byte{0, 0, 1, 0, 0, 1, 0, 0, 0, 0, 0, 0, 1, 'a', 0xc0, 0x0c}
-	})
 	for n := 0; n <= 12; n++ {
 		n := n
 		add(fmt.Sprintf("short:%d", n), true, func(rng *mrand.Rand) []byte { return rnd(rng, n) })
